@@ -1,15 +1,24 @@
-import Martian.Model.Config
+import Martian.Model.ConfigJson
 /-!
 Driver for C12. Ops:
   `post <tree>`                 → `ok <hasReq> <hasRes>` | `rej <unknown-modifier|invalid-scope|malformed>`
-  `run <q|s> <msgspec> <true atoms>` → `t=<labels> e=<-|E<l>|M<l,…>>`
+  `postj <style> <json value>`  → the same, for a body given as a JSON value (`fromJSON`, then `servePOST`)
+  `run <q|s> <message>`         → `t=<labels> e=<-|E<l>|M<l,…>>`
+  `cond <q|s> <cond> <message>` → `1` | `0`            (one matcher on one message)
+  `matchhost <host> <pattern>`  → `1` | `0`            (`martianurl.MatchHost`)
+  `query <raw>`                 → `k:v,k:v…` | `-`     (`url.ParseQuery`, stably sorted by key)
 Tree tokens (prefix form):
   `L <label> <caps b|q|s|z> <failReq> <failRes> <scope>` | `U<variant>` | `X<variant>`
   `F <scope> <agg> <n> child*n` | `P <scope> <n> (<prio> child)*n` | `C <cond> <scope> <hasElse> then [else]`
   scope: `n` (absent/null) | `e` (`[]`) | string over q (request) s (response) x (anything else)
+  cond:  `m:<method>` | `u:<scheme>:<host>:<path>:<query>` | `q:<name>:<value>` | `h:<name>:<value>` | `c:<name>:<value>` (hex) | `p:<port>` (decimal)
+  JSON value tokens (prefix form): `N` | `T` | `F` | `#<number literal>` | `S<hex>` | `A<n> value*n` | `O<n> (<hex key> value)*n`
+  message: 14 `;`-separated fields: method;scheme;host;path;rawQuery;req.Host;req.ContentLength;req.TransferEncoding;
+           request headers;request cookies;res.ContentLength;res.TransferEncoding;response headers;response cookies
+           (byte strings hex; TE `n` = nil, `e` = empty, else `,`-list; headers/cookies `-` or `name:value,…` in Add order)
 -/
 namespace Martian.Drv.C12
-open Martian Martian.Config
+open Martian Martian.Config Martian.Go
 
 def parseScope (s : String) : Option Scope :=
   if s = "n" || s = "N" then some none
@@ -27,6 +36,63 @@ def parseCaps (s : String) : Option Caps :=
 
 def parseInt (s : String) : Option Int :=
   if s.startsWith "-" then (s.drop 1).toNat?.map (fun n => -(n : Int)) else s.toNat?.map (fun n => (n : Int))
+
+def parseCond (s : String) : Option Cond :=
+  match s.splitOn ":" with
+  | ["m", a] => (unhex a).map Cond.method
+  | ["u", a, b, c, d] =>
+    match unhex a, unhex b, unhex c, unhex d with
+    | some a, some b, some c, some d => some (.url a b c d)
+    | _, _, _, _ => none
+  | ["q", a, b] => match unhex a, unhex b with | some a, some b => some (.query a b) | _, _ => none
+  | ["h", a, b] => match unhex a, unhex b with | some a, some b => some (.header a b) | _, _ => none
+  | ["c", a, b] => match unhex a, unhex b with | some a, some b => some (.cookie a b) | _, _ => none
+  | ["p", a] => (parseInt a).map Cond.port
+  | _ => none
+
+def parsePairs (s : String) : Option (List (Bytes × Bytes)) :=
+  if s = "-" then some [] else
+  (s.splitOn ",").mapM fun kv =>
+    match kv.splitOn ":" with
+    | [k, v] => match unhex k, unhex v with | some k, some v => some (k, v) | _, _ => none
+    | _ => none
+
+def parseTE (s : String) : Option (Option (List Bytes)) :=
+  if s = "n" then some none else if s = "e" then some (some [])
+  else ((s.splitOn ",").mapM unhex).map some
+
+def parseMsg (s : String) : Option Message :=
+  match s.splitOn ";" with
+  | [me, sc, ho, pa, rq, rh, rcl, rte, rhd, rck, scl, ste, shd, sck] =>
+    match unhex me, unhex sc, unhex ho, unhex pa, unhex rq, unhex rh with
+    | some me, some sc, some ho, some pa, some rq, some rh =>
+      match parseInt rcl, parseTE rte, parsePairs rhd, parsePairs rck, parseInt scl, parseTE ste, parsePairs shd, parsePairs sck with
+      | some rcl, some rte, some rhd, some rck, some scl, some ste, some shd, some sck =>
+        some { method := me, scheme := sc, host := ho, path := pa, rawQuery := rq, reqHost := rh, reqCL := rcl, reqTE := rte,
+               reqHeader := rhd.foldl (fun h kv => Header.add h kv.1 kv.2) [], reqCookies := rck,
+               resCL := scl, resTE := ste, resHeader := shd.foldl (fun h kv => Header.add h kv.1 kv.2) [], resCookies := sck }
+      | _, _, _, _, _, _, _, _ => none
+    | _, _, _, _, _, _ => none
+  | _ => none
+
+def parseKind (k : String) : Option Kind := if k = "q" then some Kind.req else if k = "s" then some Kind.res else none
+
+/-- lexicographic `<` on byte strings (Go string comparison) -/
+def bytesLt : Bytes → Bytes → Bool
+  | [], [] => false
+  | [], _ :: _ => true
+  | _ :: _, [] => false
+  | a :: as, b :: bs => if a < b then true else if b < a then false else bytesLt as bs
+
+def insByKey (x : Bytes × Bytes) : List (Bytes × Bytes) → List (Bytes × Bytes)
+  | [] => [x]
+  | y :: ys => if bytesLt y.1 x.1 then y :: insByKey x ys else x :: y :: ys
+
+/-- stable sort by key -/
+def sortByKey (l : List (Bytes × Bytes)) : List (Bytes × Bytes) := l.foldr insByKey []
+
+def showPairs (l : List (Bytes × Bytes)) : String :=
+  if l.isEmpty then "-" else ",".intercalate (l.map fun kv => hex kv.1 ++ ":" ++ hex kv.2)
 
 mutual
 def parseNode : Nat → List String → Option (Node × List String)
@@ -52,7 +118,7 @@ def parseNode : Nat → List String → Option (Node × List String)
         | none => none
       | _, _ => none
     | "C" :: c :: sc :: he :: rest =>
-      match c.toNat?, parseScope sc, parseBool he with
+      match parseCond c, parseScope sc, parseBool he with
       | some c, some sc, some he =>
         match parseNode fuel rest with
         | some (t, rest) =>
@@ -93,6 +159,78 @@ def parsePNodes : Nat → Nat → List String → Option (List (Int × Node) × 
     | [] => none
 end
 
+/-- number literal (already known to follow the JSON grammar) → sign, integer digits' value, fraction/exponent present -/
+def parseNumLit (s : String) : Option NumLit :=
+  let neg := s.startsWith "-"
+  let body : List Char := if neg then s.toList.drop 1 else s.toList
+  let ds := body.takeWhile Char.isDigit
+  if ds.isEmpty then none
+  else some ⟨neg, (String.ofList ds).toNat!, ds.length < body.length⟩
+
+mutual
+def parseJV : Nat → List String → Option (JVal × List String)
+  | 0, _ => none
+  | fuel + 1, toks =>
+    match toks with
+    | [] => none
+    | t :: rest =>
+      if t = "N" then some (.null, rest)
+      else if t = "T" then some (.bool true, rest)
+      else if t = "F" then some (.bool false, rest)
+      else if t.startsWith "#" then (parseNumLit (t.drop 1).toString).map fun n => (.num n, rest)
+      else if t.startsWith "S" then (unhex (t.drop 1).toString).map fun b => (.str b, rest)
+      else if t.startsWith "A" then
+        match (t.drop 1).toNat? with
+        | some n => (parseJVs fuel n rest).map fun r => (.arr r.1, r.2)
+        | none => none
+      else if t.startsWith "O" then
+        match (t.drop 1).toNat? with
+        | some n => (parseJKVs fuel n rest).map fun r => (.obj r.1, r.2)
+        | none => none
+      else none
+def parseJVs : Nat → Nat → List String → Option (List JVal × List String)
+  | 0, _, _ => none
+  | _ + 1, 0, toks => some ([], toks)
+  | fuel + 1, n + 1, toks =>
+    match parseJV fuel toks with
+    | some (v, rest) =>
+      match parseJVs fuel n rest with
+      | some (vs, rest) => some (v :: vs, rest)
+      | none => none
+    | none => none
+def parseJKVs : Nat → Nat → List String → Option (List (Bytes × JVal) × List String)
+  | 0, _, _ => none
+  | _ + 1, 0, toks => some ([], toks)
+  | fuel + 1, n + 1, toks =>
+    match toks with
+    | k :: toks =>
+      match unhex k, parseJV fuel toks with
+      | some k, some (v, rest) =>
+        match parseJKVs fuel n rest with
+        | some (kvs, rest) => some ((k, v) :: kvs, rest)
+        | none => none
+      | _, _ => none
+    | [] => none
+end
+
+/-- names registered in the harness process by the filter packages' siblings, outside the model -/
+def otherRegistered : List Bytes := ["header.Modifier", "header.RegexFilter", "header.Append", "header.Blacklist", "header.Copy", "header.Id",
+  "header.Verifier", "cookie.Modifier", "url.Modifier", "url.RegexFilter", "url.Verifier", "method.Verifier", "querystring.Modifier",
+  "querystring.Verifier", "port.Modifier"].map strBytes
+
+mutual
+def mentionsOther : JVal → Bool
+  | .arr xs => mentionsOtherL xs
+  | .obj kvs => mentionsOtherK kvs
+  | _ => false
+def mentionsOtherL : List JVal → Bool
+  | [] => false
+  | x :: xs => mentionsOther x || mentionsOtherL xs
+def mentionsOtherK : List (Bytes × JVal) → Bool
+  | [] => false
+  | (k, v) :: r => otherRegistered.contains k || mentionsOther v || mentionsOtherK r
+end
+
 def parseTree (toks : List String) : Option Node :=
   match parseNode (2 * toks.length + 2) toks with
   | some (n, []) => some n
@@ -124,10 +262,30 @@ def step (s : St) (toks : List String) : St × String :=
       match servePOST s n with
       | (s', .ok ()) => (s', s!"ok {b01 s'.req.isSome} {b01 s'.res.isSome}")
       | (s', .error e) => (s', s!"rej {showPErr e}")
-  | ["run", k, _msg, atoms] =>
-    match (if k = "q" then some Kind.req else if k = "s" then some Kind.res else none), natList atoms with
-    | some k, some tr => (s, showOutcome (run s k (fun _ a => tr.contains a)))
+  | "postj" :: _style :: jtoks =>
+    match parseJV (2 * jtoks.length + 2) jtoks with
+    | some (j, []) =>
+      if mentionsOther j then (s, "out-of-model") else
+      match servePOSTJ s j with
+      | (s', .ok ()) => (s', s!"ok {b01 s'.req.isSome} {b01 s'.res.isSome}")
+      | (s', .error e) => (s', s!"rej {showPErr e}")
+    | _ => (s, "bad-op")
+  | ["run", k, msg] =>
+    match parseKind k, parseMsg msg with
+    | some k, some m => (s, showOutcome (run s k m.toMsg))
     | _, _ => (s, "bad-op")
+  | ["cond", k, c, msg] =>
+    match parseKind k, parseCond c, parseMsg msg with
+    | some k, some c, some m => (s, b01 (holds c k m))
+    | _, _, _ => (s, "bad-op")
+  | ["matchhost", h, p] =>
+    match unhex h, unhex p with
+    | some h, some p => (s, b01 (matchHost h p))
+    | _, _ => (s, "bad-op")
+  | ["query", q] =>
+    match unhex q with
+    | some q => (s, showPairs (sortByKey (parseQuery q)))
+    | none => (s, "bad-op")
   | _ => (s, "bad-op")
 
 end Martian.Drv.C12
